@@ -10,7 +10,7 @@ from ..pyutil import binding_sites, parents
 
 META = {
     'title': 'The validator always produces a report and each check is exact',
-    'technique': 'model-typed subscript safety + membership-dominance for data-dependent keys; registry vs documented table; literal folding of the relation tables',
+    'technique': 'model-typed subscript safety + membership-dominance for data-dependent keys; registry vs documented table; literal folding of the relation tables; effect summaries of the reference / blank checks',
     'explanation': (
         'Exactness of each of the eighteen predicates is value-level and not decided. Decided: R1 totality - in wn/validate.py no '
         'function reachable from validate() can raise KeyError/TypeError on a loadable lexicon: (S1) x[k] on a model-typed value '
